@@ -12,6 +12,21 @@ from .playing import BASE, Playing, Tok
 
 
 def run(chk):
+    """The shape-independent decider first (complete play-outs of the folded engines against the rules), then the path-summary rules for
+    all states; a shape the latter cannot bind is recorded, not an error, as long as the play-outs decide the behaviour."""
+    from . import playout
+    playout.run(chk, 'C04')
+    try:
+        structural(chk)
+    except AnalysisError as e:
+        if chk.findings:
+            raise
+        chk.explanation = ''
+        chk.note(f'path-summary rules not evaluated ({e.rule} at {e.anchor}: {e.why[:200]}); the verdict rests on the complete play-outs and the folds evaluated before')
+    chk.explanation = 'Complete play-outs: the real PlayingPhaseWithHands and four ObservedPlayingPhase replicas are folded in lock-step through all 52 cards of a family of deals x trump x declarer x card-choice strategy (incl. revokes, which the engines allow) and compared with an oracle of the rules after every card (sa/rules/playout.py): turn, leader, trick number, tricks taken, recorded tricks, has_done (R7).  ' + (chk.explanation or 'The path-summary rules could not bind this shape of the engine and were not evaluated.')
+
+
+def structural(chk):
     P = Playing(chk, 'C04')
     f, repo = P.f, chk.repo
     chk.explanation = (
